@@ -671,3 +671,9 @@ where
     }
     Ok((grm, tok, rule))
 }
+
+/// Deterministic bound on recovery search steps per parse. Kept low on purpose: the search's
+/// `todo` vector grows by (cost+1) slots per neighbour (dijkstra.rs `todo.resize(todo.len() + off
+/// + 1, ..)`), i.e. memory is quadratic in the cost level reached, and an unsuccessful search
+/// climbs one cost level every few steps (20000 steps reached cost 1400 and 14 GB).
+pub const RECOVERY_CAP: u64 = 1500;
